@@ -21,7 +21,7 @@ _WEIGHTS = [
     ('exit', 8), ('tomb', 6), ('tomb_term', 4), ('monitor', 9),
     ('monitor_restart', 4), ('fault', 5), ('finish_replace', 5),
     ('clean', 9), ('late_created', 4), ('midsync', 4), ('midsync_monitor', 6),
-    ('restart', 7), ('node_start', 2),
+    ('restart', 7), ('node_start', 2), ('reboot_after_exit', 2), ('clean_race', 3),
 ]
 
 
@@ -186,8 +186,8 @@ class Gen:
             if kind == 'exit':
                 if node.running_target(inst) is None:
                     continue
-                how = rng.choice(('exitinfo', 'exitinfo', 'aborted', 'oom',
-                                  'sigabrt'))
+                how = rng.choice(('exitinfo', 'exitinfo0', 'aborted', 'oom',
+                                  'sigabrt', 'killed'))
                 ops = [('exit', inst, how)]
                 if rng.random() < 0.6:
                     ops.append(('tomb', inst))
@@ -283,7 +283,7 @@ class Gen:
                 if have is None or runs is None or have[:2] != runs[:2]:
                     continue
                 self._composite = True
-                how = rng.choice(('exitinfo', 'exitinfo', 'aborted', 'oom', 'sigabrt', 'sigabrt'))
+                how = rng.choice(('exitinfo', 'exitinfo0', 'aborted', 'oom', 'sigabrt', 'sigabrt'))
                 n_apps = len(os.listdir(node.apps_dir))
                 ops = [('drain',), ('fault', 'svscan', 0), ('fault', 'service', 0), ('monitor',), ('clean_all',),
                        ('restart',) if rng.random() < 0.5 else ('ready', 0), ('drain',)]
@@ -305,7 +305,7 @@ class Gen:
                 if cached or node.running_target(inst) is not None or inst in node.pending_exit:
                     continue
                 self._composite = True
-                how = rng.choice(('exitinfo', 'exitinfo', 'aborted', 'oom', 'sigabrt'))
+                how = rng.choice(('exitinfo', 'exitinfo_sig', 'aborted', 'oom', 'sigabrt'))
                 ops = [('drain',), ('ready', 0), ('drain',), ('ready', 1),
                        ('put', inst, self._new_gen(), False, _shape(rng)), ('deliver', 1)]
                 if rng.random() < 0.3:
@@ -341,6 +341,39 @@ class Gen:
                     ops.append(('ready', 1))
                     if rng.random() < 0.7:
                         ops.append(('drain',))
+                return ops
+            if kind == 'clean_race':
+                # three processes: a container ended and waits in cleanup under the instance name; the instance was
+                # evicted and placed again, its next container runs and ends as well; the node monitor executes that
+                # tombstone while the clean-up job of the FIRST container is between its two steps (container
+                # directory removed, cleanup link not yet unlinked); later the manager synchronises again
+                if not cached or node.running_target(inst) is None or inst in node.pending_exit \
+                        or node.running_target(inst) in node.ended or not node.model_active:
+                    continue
+                self._composite = True
+                how1 = rng.choice(('exitinfo', 'exitinfo0', 'aborted', 'oom', 'sigabrt', 'killed'))
+                how2 = rng.choice(('exitinfo', 'aborted', 'sigabrt', 'killed', 'killed', 'killed'))
+                ops = [('drain',), ('fault', 'svscan', 0), ('fault', 'service', 0), ('monitor',), ('clean_all',),
+                       ('exit', inst, how1), ('tomb', inst), ('monitor',),
+                       ('del', inst), ('drain',), ('put', inst, self._new_gen(), False, _shape(rng)), ('drain',),
+                       ('exit', inst, how2), ('tomb', inst), ('clean', inst, 'monitor-inside'), ('monitor',)]
+                r = rng.random()
+                if r < 0.4:
+                    ops += [('restart',), ('ready', 1), ('drain',)]
+                elif r < 0.8:
+                    ops += [('ready', 0), ('drain',), ('ready', 1), ('drain',)]
+                return ops
+            if kind == 'reboot_after_exit':
+                # the node goes down (and starts again) soon after a container ended: its clean-up has not run, the
+                # instance is still placed here
+                if not cached or node.running_target(inst) is None or inst in node.pending_exit:
+                    continue
+                self._composite = True
+                how = rng.choice(('exitinfo', 'exitinfo0', 'exitinfo0', 'exitinfo_sig', 'aborted', 'aborted', 'oom', 'oom', 'sigabrt'))
+                ops = [('drain',), ('exit', inst, how)]
+                if rng.random() < 0.6:
+                    ops += [('tomb', inst), ('monitor',)]
+                ops += [('node_start',), ('ready', 1), ('drain',)]
                 return ops
             if kind == 'node_start':
                 ops = [('node_start',)]
@@ -571,10 +604,23 @@ class Run:
                 return self._after('monitor', 'MonitorContainerCleanup',
                                    tombs=tombs)
             if kind == 'clean':
-                res = node.cleanup_one(op[1], op[2] if len(op) > 2 else None)
+                mode = op[2] if len(op) > 2 else None
+                target = self.oracle.prev.cleanup.get(op[1]) if isinstance(op[1], str) else None
+                res = node.cleanup_one(op[1], mode)
                 if res == 'interrupted':
                     self.count('cleanups_interrupted_half_way')
                     return self._after('env', 'Cleanup.invoke(interrupted)')
+                if res and mode == 'monitor-inside':
+                    self.count('cleanups_completed')
+                    self.count('cleanups_with_monitor_between_finish_and_unlink')
+                    tombs = node.take_midsync_tombs()
+                    for tid, _stamp, _nth, _res, owner, running, _origin in tombs:
+                        if tid == op[1] and running is not None and running == owner and running != target:
+                            # the monitor handed the NEXT container of the instance over while the link named after
+                            # the instance still pointed at the directory the job had just removed
+                            self.count('cleanup_race_next_generation_handed_over_between_finish_and_unlink')
+                            self.flags.add('handover-inside-cleanup-job')
+                    return self._after('env', 'Cleanup.invoke+MonitorContainerCleanup', tombs=tombs)
                 if res:
                     self.count('cleanups_completed')
                     return self._after('env', 'Cleanup.invoke')
